@@ -4,7 +4,6 @@ CONSTANTS
   Steps <- StepsStd
   GridOnly = FALSE
   Dump = TRUE
-  Cap = 70
 INVARIANT RefSound
 INVARIANT BodySound
 INVARIANT ImplFollowsRef
